@@ -101,6 +101,9 @@ func (g *G) arg(spec string, op string) string {
 	if s, ok := g.bigFloatArg(codec, name, op); ok {
 		return s
 	}
+	if s, ok := g.fmtArg(codec, name, op); ok {
+		return s
+	}
 	switch codec {
 	case "Bool":
 		return sBool(g.chance(0.5))
@@ -430,7 +433,7 @@ func replayMode(lines []string) {
 				break
 			}
 		}
-		if strings.HasPrefix(t[1], "api.") {
+		if strings.HasPrefix(t[1], "api.") || t[1] == "fmt.ScanScript" {
 			apiCall(drm, t[1], args)
 		} else {
 			emit(drm, t[1], args)
